@@ -94,12 +94,10 @@ pub fn ilog10_spec() {
     }
     kani::cover!(x > 0);
 }
-#[kani::proof]
-#[kani::unwind(66)]
-pub fn ilog_small_bases_spec() {
+/// `ilog(x, b)` for a CONSTANT base b (one harness per base: with a symbolic base in -1..=4 the 128-bit products
+/// by a symbolic factor needed > 14 GB)
+fn ilog_base_spec(base: i64) {
     let x: i64 = kani::any();
-    let base: i64 = kani::any();
-    kani::assume(base >= -1 && base <= 4);
     match ilog(x, base) {
         None => assert!(x <= 0 || base < 2),
         Some(r) => {
@@ -110,7 +108,24 @@ pub fn ilog_small_bases_spec() {
             assert!(p <= x as i128 && (x as i128) < p * base as i128);
         }
     }
-    kani::cover!(x > 0 && base >= 2);
+    kani::cover!(x > 0);
+}
+#[kani::proof]
+#[kani::unwind(66)]
+pub fn ilog_base2_spec() { ilog_base_spec(2); }
+#[kani::proof]
+#[kani::unwind(66)]
+pub fn ilog_base3_spec() { ilog_base_spec(3); }
+#[kani::proof]
+#[kani::unwind(66)]
+pub fn ilog_base4_spec() { ilog_base_spec(4); }
+/// bases below 2 never have a logarithm, whatever x
+#[kani::proof]
+#[kani::unwind(66)]
+pub fn ilog_bases_below_2_spec() {
+    let x: i64 = kani::any();
+    assert!(ilog(x, 1).is_none() && ilog(x, 0).is_none() && ilog(x, -1).is_none());
+    kani::cover!(x > 0);
 }
 /// `ilog` is () exactly when docs say so, for every base
 #[kani::proof]
@@ -118,7 +133,7 @@ pub fn ilog_small_bases_spec() {
 pub fn ilog_none_iff() {
     let x: i64 = kani::any();
     let base: i64 = kani::any();
-    kani::assume(x < 16); // bounds the loop in checked_ilog; the large-x side is ilog_small_bases_spec
+    kani::assume(x < 16); // bounds the loop in checked_ilog; the large-x side is ilog_base{2,3,4}_spec
     assert!(ilog(x, base).is_none() == (x <= 0 || base < 2));
     kani::cover!(ilog(x, base).is_some());
 }
